@@ -199,6 +199,7 @@ class _Loader(importlib.abc.Loader):
         SOURCE_LINES[self.fullname] = (self.path, source)
         tree = transform_source(source, self.fullname, self.path)
         code = compile(tree, self.path, 'exec')
+        module.__dict__['__file__'] = self.path
         exec(code, module.__dict__)
 
 
